@@ -1441,7 +1441,12 @@ class TermCanvas(Canvas):
             yield from self.term
         else:
             buf = [*self.scrollback_buffer, *self.term]
-            yield from buf[-(self.height + self.scrolling_up) : -self.scrolling_up]
+            for line in buf[-(self.height + self.scrolling_up) : -self.scrolling_up]:
+                # scrollback lines keep the width the terminal had when they scrolled off
+                if (padding := self.width - len(line)) > 0:
+                    yield line + [self.empty_char()] * padding
+                else:
+                    yield line[: self.width]
 
     def content_delta(self, other: Canvas):
         if other is self:
